@@ -367,6 +367,18 @@ def layer4(args):
         if not over and st == "raised":
             viols.append(("representable", "raises", f"runs of {n1}/{n2} options fit but build raised",
                           dict(layer=4, n1=n1, n2=n2, repeated=repeated)))
+    # every pair of run lengths 0..15 (all representable)
+    for n1, n2 in itertools.product(range(0, 16), repeat=2):
+        opts = distinct_options(40)
+        e = hdr.SOMEIPSDEntry(sd_type=T.OfferService, service_id=1, instance_id=2, major_version=3, ttl=4,
+                              minver_or_counter=5, options_1=tuple(opts[:n1]), options_2=tuple(opts[20:20 + n2]))
+        st, v = try_unrepresentable([e], dict(disc="run-count-fits", what=f"runs of {n1} and {n2} options", n1=n1, n2=n2, repeated=False))
+        n += 1
+        outcomes[(st, False)] = outcomes.get((st, False), 0) + 1
+        viols += v
+        if st == "raised":
+            viols.append(("representable", "raises", f"runs of {n1}/{n2} options fit but build raised",
+                          dict(layer=4, n1=n1, n2=n2, repeated=False)))
     # over-long runs that can be *found* in the shared array (spelled by earlier, legal runs)
     for total, repeated in itertools.product((15, 16, 17), (False, True)):
         opts = distinct_options(40)
